@@ -16,6 +16,11 @@ N == Len(Recs)
 \* ("equals the expansion of a legal non-hint RV32C instruction": literal equality of mnemonic and operands)
 EligibleSet == Eligible16
 
+RECURSIVE LiSizeBound(_)
+LiSizeBound(ds) ==
+  IF ds = <<>> THEN 0
+  ELSE (IF [m |-> ds[1].m, ops |-> Canon(ds[1].m, ds[1].ops)] \in EligibleSet THEN 2 ELSE 4) + LiSizeBound(Tail(ds))
+
 Rel(prog, nc, c) ==
   IF nc.status = "ok" /\ c.status # "ok" THEN { <<"CompressKeepsSuccess", 0>> }
   ELSE IF nc.status = "ok" /\ c.status = "ok"
@@ -24,6 +29,9 @@ Rel(prog, nc, c) ==
             t \in {x \in LabelNames(prog) : x \in DOMAIN c.labels /\ x \in DOMAIN nc.labels /\ c.labels[x] > nc.labels[x]} } \cup
        { <<"EligibleIsCompressed", i>> :
             i \in {j \in 1..Len(prog) : prog[j].k \in {"ins", "pins"} /\ LiteralBase(prog[j]) \in EligibleSet /\ c.sizes[j] # 2} } \cup
+       \* a li of a literal value: each instruction of its (mode-independent) expansion that has a 16-bit form takes 16 bits
+       { <<"EligibleIsCompressed", i>> :
+            i \in {j \in 1..Len(prog) : prog[j].k = "li" /\ c.sizes[j] > LiSizeBound(Insts(nc.hw[j]))} } \cup
        { <<"NeverLongerPerItem", i>> : i \in {j \in 1..Len(prog) : prog[j].k \in InstrKinds /\ c.sizes[j] > nc.sizes[j]} } \cup
        { <<"DataUnchanged", i>> :
             i \in {j \in 1..Len(prog) : prog[j].k \in {"data", "gap"} /\ c.rle[j] # nc.rle[j]} }
